@@ -14,13 +14,14 @@ SumSeq(s, i) == IF i > Len(s) THEN 0 ELSE s[i] + SumSeq(s, i + 1)
 ApplyInt(n, args) == IF kind[n] = "c" /\ n \in ({Hdr.sims[j].d : j \in 1..Len(Hdr.sims)} \cup SeqToSet(Hdr.factors))
                      THEN 0                       \* distribution node: log-prob of the fake dist
                      ELSE n + 2 * SumSeq(args, 1)
+ErrInt == -1      \* never produced in the integer regime
 DrawInt(d, r, pv) == r + 8 * (d + SumSeq(pv, 1))
 
 TInit ==
   /\ BatchInit
-  /\ N = Hdr.n /\ kind = Hdr.kind /\ inp = Hdr.inp /\ val = Hdr.init
+  /\ N = Hdr.n /\ kind = Hdr.kind /\ inp = Hdr.inp /\ ord = [i \in 1..Hdr.n |-> i] /\ val = Hdr.init
   /\ flag = [i \in 1..Hdr.n |-> FALSE] /\ dirty = [i \in 1..Hdr.n |-> FALSE]
-  /\ auto = TRUE /\ slots = <<>> /\ evald = {}
+  /\ auto = TRUE /\ slots = <<>> /\ evald = {} /\ raised = FALSE
 
 Obs ==
   /\ Chk("values_equal_spec", \A i \in Node : Ev.val[i] = Eff(val')[i])
